@@ -784,7 +784,7 @@ impl Interp {
         Failure::new(clause, format!("{detail}\n  transcript (last {}):\n    {}", tail.len(), tail.join("\n    "))).with_tags(self.tags.iter().cloned())
     }
 
-    fn key_of(def: &TableDef, ui: usize, row: &[Val]) -> Option<String> {
+    pub fn key_of(def: &TableDef, ui: usize, row: &[Val]) -> Option<String> {
         let u = def.uniques.get(ui)?;
         if u.iter().any(|c| row.get(*c).map(|v| v.is_null()).unwrap_or(true)) {
             return None;
